@@ -397,6 +397,7 @@ type c06Req struct {
 	HasResp bool              `json:"has_resp,omitempty"` // a create/update/stop response was returned
 	// issued by a slowreq step (shortened request timeout); SlowPlugin did not answer it
 	Short      bool   `json:"short_timeout,omitempty"`
+	DurMs      int    `json:"duration_ms,omitempty"` // wall clock, slowreq only
 	SlowPlugin string `json:"slow_plugin,omitempty"`
 }
 
@@ -661,11 +662,13 @@ func (x *c06Exec) slowreq(s C06Step) {
 	adaptation.SetPluginRequestTimeout(c06SlowTimeout)
 	defer adaptation.SetPluginRequestTimeout(c06NormalTimeout)
 	mark := x.ctr.Add(1)
+	t0 := time.Now()
 	r := x.request(0, s.Event)
 	if r == nil {
 		return
 	}
 	r.Short = true
+	r.DurMs = int(time.Since(t0) / time.Millisecond)
 	if !armedSlow {
 		return
 	}
@@ -866,6 +869,11 @@ func judgeC06(c C06Case, h *c06Hist) ev.Outcome {
 	for _, r := range h.Reqs {
 		if !r.Short {
 			continue
+		}
+		// every plugin that ran into the shortened timeout adds a full timeout to the request:
+		// if the request took nearly two of them, a second (healthy) plugin may have been dropped
+		if time.Duration(r.DurMs)*time.Millisecond >= 2*c06SlowTimeout-c06SlowTimeout/10 {
+			return ev.Outcome{Overloaded: true, History: h, Classes: []string{"healthy-plugin-dropped-under-short-timeout"}}
 		}
 		for _, p := range h.Plugins {
 			if p.ClosedByRuntime {
